@@ -1,5 +1,6 @@
 CONSTANTS MaxT = 2  MaxReq = 1
 SPECIFICATION Spec
+VIEW View
 INVARIANT Inv
 INVARIANT LiveInv
 PROPERTY Monotone
